@@ -608,3 +608,42 @@ KEEP += [
                      "impl Parallelogram {\n    fn couple(&self, mut solutions: Solutions) -> Solutions {\n        for x in solutions.iter_mut() {\n            x[self.coupled] += self.scaling * x[self.driven];\n        }\n        solutions\n    }\n}\n\nimpl Kinematics for Parallelogram {\n    fn inverse(&self, tcp: &Pose) -> Solutions {\n        self.couple(self.robot.inverse(tcp))\n    }\n", False)],
      None, ['C16', 'C08'], 'the post-map of Parallelogram::inverse moved into a helper taking and returning the solutions'),
 ]
+
+
+# ---- rewrites written by independent sub-agents (tools/refactor_prompt.py): four per property, each verified by its author to pass the
+# 66 tests and to be bit-identical on a differential test (selftest/keep/meta/R_<id>.json)
+KEEP_AGENTS = [
+    ('R02-1', 'DIFF', 'R_C02_1.diff', None, ALL, 'index loops -> iterator chains (zip/enumerate/all), guard clause with continue, else-if flattening: In OPWKinematics::inverse_intern the offset/sign mapping of the 8x6 theta table is written with iter'),
+    ('R02-2', 'DIFF', 'R_C02_2.diff', None, ALL, 'repeated code moved into a closure, array map with destructuring, deferred-init temporaries removed: In inverse_intern the four copy-pasted blocks that compute theta4/theta6 of the shoulder x elbow br'),
+    ('R02-3', 'DIFF', 'R_C02_3.diff', None, ALL, 'extract helper method (std::array::from_fn), if/else -> match, if/else -> bool::then_some: The joint -> model angle mapping `joints[i] * sign_corrections[i] as f64 - offsets[i]`, written out six times'),
+    ('R02-4', 'DIFF', 'R_C02_4.diff', None, ALL, 'data carried differently (wrist-flipped half of the table generated from the first half), temporaries reused/removed, TAU for 2.0 * PI: In inverse_intern the twelve named temporaries theta4_v..viii, t'),
+    ('R03-1', 'DIFF', 'R_C03_1.diff', None, ALL, 'extract helper method; six unrolled statements -> std::array::from_fn over the joint index; array destructuring: The six duplicated apply sign correction and offset lines in OPWKinematics::forward a'),
+    ('R03-2', 'DIFF', 'R_C03_2.diff', None, ALL, 'sequential let-chain -> data table (array of tuples) + enumerate loop with accumulator array: forward_with_joint_poses: the six hand-written pose_i = pose_{i-1} * Isometry3::from_parts(Translation3::n'),
+    ('R03-3', 'DIFF', 'R_C03_3.diff', None, ALL, 'equivalent library call (sin + cos -> sin_cos, f64::atan2(a,b)/f64::sqrt(x) -> method form), reuse of already computed values, independent statements reordered, temporaries removed/introduced: forward'),
+    ('R03-4', 'DIFF', 'R_C03_4.diff', None, ALL, 'extract free functions; data carried as (sin, cos) tuples destructured in parameter patterns; named temporaries removed: forward: the construction of the two rotation matrices r_0c (joints 1-3) and r_'),
+    ('R04-1', 'DIFF', 'R_C04_1.diff', None, ALL, 'extract helper functions + index loops -> iterator (iter_mut/zip); if/else assignment -> if/else expression in a method: The duplicated CONSTRAINT_CENTERED sentinel -> constraint centres selection i'),
+    ('R04-2', 'DIFF', 'R_C04_2.diff', None, ALL, 'if/else + unwrap -> match with guard; per-pair temporaries -> per-solution cost closure; inverted condition with swapped branches: sort_by_closeness: the map_or(BY_PREV, ..) / `== BY_PREV` / constrain'),
+    ('R04-3', 'DIFF', 'R_C04_3.diff', None, ALL, 'inline nested helper into a counted loop; &mut out-parameter -> value-returning function; std constant TAU for 2.0 * PI; index loops -> iter_mut + array::from_fn: normalize_near(&mut f64, f64) with it'),
+    ('R04-4', 'DIFF', 'R_C04_4.diff', None, ALL, 'index loop with break -> iterator find + let-else + continue; if-let -> match; deferred-initialised locals -> tuple returned from if/else expression: In inverse_continuing the inner `for s_idx in 0..i'),
+    ('R05-1', 'DIFF', 'R_C05_1.diff', None, ALL, 'index loops -> iterator chains (find, iter_mut/zip); if-let -> match: In inverse_continuing the `for s_idx in 0..ik.len()` search with a trailing `break` becomes `ik.iter().find(|c| kinematic_singular'),
+    ('R05-2', 'DIFF', 'R_C05_2.diff', None, ALL, 'extract helper method / extract helper function: The sign/offset corrected J5 (`joints[J5] * sign_corrections[J5] as f64 - offsets[J5]`), computed separately in kinematic_singularity and in inverse_co'),
+    ('R05-3', 'DIFF', 'R_C05_3.diff', None, ALL, 'control flow: if-expression, inverted condition with swapped branches, guard clause with early break, bool::then_some, while -> if: `let previous; if .. {..} else {..}` becomes an if-expression; the `'),
+    ('R05-4', 'DIFF', 'R_C05_4.diff', None, ALL, 'data carried differently (tuple from if-expression, nalgebra vectors instead of scalar components), equivalent library constants/calls (TAU, *0.5, %=), independent statements re-ordered: The micro-shi'),
+    ('R06-1', 'DIFF', 'R_C06_1.diff', None, ALL, 'if/else -> match dispatch; deferred-init if/else -> if expression; duplicated index loops extracted into a helper that uses iter_mut().zip(); temporary introduced for J6: src/kinematics_impl.rs: Kinem'),
+    ('R06-2', 'DIFF', 'R_C06_2.diff', None, ALL, 'extract helper returning Option + let-else guard clause; index loop -> enumerate iterator; flag variable removed; nested else { if } flattened to else if: src/kinematics_impl.rs, inverse_intern_5_dof:'),
+    ('R06-3', 'DIFF', 'R_C06_3.diff', None, ALL, 'four copy-pasted computations -> one closure evaluated per branch; deferred-initialised scalars -> fixed-size arrays ([f64; 4] via array::map); named temporaries for the flipped-wrist values inlined i'),
+    ('R06-4', 'DIFF', 'R_C06_4.diff', None, ALL, 'Option combinator chain -> match; mutate-after-read -> array destructuring and rebuild; default via temporary Vec<Yaml> -> early return (let-else); len check + unwrap -> try_from(..).map_err; if/else '),
+    ('R07-1', 'DIFF', 'R_C07_1.diff', None, ALL, 'extract helper + merge duplicated branches + index loop -> zip/enumerate, if/else -> match on Option: src/constraints.rs: compute_centers now delegates the per-joint work to a new private helper Const'),
+    ('R07-2', 'DIFF', 'R_C07_2.diff', None, ALL, 'mutable temporaries removed / helper extracted / early return -> boolean expression / iterator chains -> explicit loops: src/constraints.rs: inside_bounds is split into a pure circular_distance(angle1'),
+    ('R07-3', 'DIFF', 'R_C07_3.diff', None, ALL, 'data carried differently (named constant + tuple, struct built once instead of mutated) / match -> if-let + unwrap_or_else / closure helper / if-else -> conditional expression + destructuring assignme'),
+    ('R07-4', 'DIFF', 'R_C07_4.diff', None, ALL, 'equivalent library calls (TAU for 2.0*PI, each_ref().map for hand-written arrays, partial_cmp + match for if/else-if chain, compound assignment) / constructor delegation / default moved into initialis'),
+    ('R09-1', 'DIFF', 'R_C09_1.diff', None, ALL, 'extract helper method: src/tool.rs: the pose pre-mapping repeated in the four inverse entry points of Tool (tcp * tool^-1) and of Base (base^-1 * tcp) is extracted into private methods Tool::flange_po'),
+    ('R09-2', 'DIFF', 'R_C09_2.diff', None, ALL, 'loop -> array map, match -> guard clause + indexed write, temporaries removed/introduced: src/tool.rs: Base::forward_with_joint_poses replaces the iter_mut loop by [Pose; 6]::map(|pose| base * pose); '),
+    ('R09-3', 'DIFF', 'R_C09_3.diff', None, ALL, 'computation moved behind a closure-taking helper, array destructuring instead of indexed in-place update, temporaries inlined: src/frame.rs: the four inverse entry points of `impl Kinematics for Frame'),
+    ('R09-4', 'DIFF', 'R_C09_4.diff', None, ALL, 'push loop -> into_iter().filter().collect(), if-let/else -> Option::map, enumerate+index -> zip, temporaries inlined / redundant clone of Copy removed: src/kinematics_with_shape.rs: create_robot_with_'),
+    ('R10-1', 'DIFF', 'R_C10_1.diff', None, ALL, 'guard clause / early return, extracted helper methods, if-else -> && short circuit, bool::then: CollisionTask::collides: the NEVER_COLLIDES case became an early `return None`; the AABB pre-filter was '),
+    ('R10-2', 'DIFF', 'R_C10_2.diff', None, ALL, 'if-let chain with returns -> Option combinators (or_else / unwrap_or_else), insert loop -> extend over iterator map, De Morgan + guard clause, temporary introduced: SafetyDistances::min_distance now l'),
+    ('R10-3', 'DIFF', 'R_C10_3.diff', None, ALL, 'for loops with if+push -> iterator chains (enumerate/zip/filter/map/extend), index loop -> iterator, nested if -> Option::filter, range bound replaces a condition: RobotBody::detect_collisions_with_sk'),
+    ('R10-4', 'DIFF', 'R_C10_4.diff', None, ALL, 'extract helper function, if/else-if on enum -> exhaustive match, Option->Vec via map_or_else, temporaries removed, iter()+cast -> into_iter()+usize::from: The repeated `forward_with_joint_poses(..).ma'),
+]
+KEEP += KEEP_AGENTS
